@@ -2,6 +2,7 @@ package exec
 
 import (
 	"fmt"
+	"math"
 	"go/types"
 	"strconv"
 	"strings"
@@ -199,6 +200,9 @@ func init() {
 		"verifIte": func(c *stubCtx) {
 			c.ret(smt.Ite(c.args[0].(*smt.Term), c.args[1].(*smt.Term), c.args[2].(*smt.Term)))
 		},
+		"verifEqBytes": func(c *stubCtx) {
+			c.ret(elemsEq(c.m.sliceElems(c.args[0]), c.m.sliceElems(c.args[1])))
+		},
 		"verifIsNative": func(c *stubCtx) { c.ret(smt.False) },
 		"verifMaxAlloc": func(c *stubCtx) {
 			r := smt.BV(64, 0)
@@ -384,6 +388,33 @@ func init() {
 				return
 			}
 			c.m.readAllSummary(c)
+		},
+		"math.Pow": func(c *stubCtx) {
+			x, y := c.args[0].(*smt.Term), c.args[1].(*smt.Term)
+			if x.IsConst() && y.IsConst() {
+				c.ret(smt.F64(math.Pow(math.Float64frombits(x.U), math.Float64frombits(y.U))))
+				return
+			}
+			panic(unsupported("math.Pow with symbolic operands"))
+		},
+		"math.Floor": func(c *stubCtx) { c.ret(smt.FFloor(c.args[0].(*smt.Term))) },
+		"math.Trunc": func(c *stubCtx) { c.ret(smt.FTrunc(c.args[0].(*smt.Term))) },
+		"math.Min": func(c *stubCtx) {
+			x, y := c.args[0].(*smt.Term), c.args[1].(*smt.Term)
+			nan := smt.Or(smt.FIsNaN(x), smt.FIsNaN(y))
+			c.ret(smt.Ite(nan, smt.F64(math.NaN()), smt.Ite(smt.FCmp("fp.lt", x, y), x, y)))
+		},
+		"math.Max": func(c *stubCtx) {
+			x, y := c.args[0].(*smt.Term), c.args[1].(*smt.Term)
+			nan := smt.Or(smt.FIsNaN(x), smt.FIsNaN(y))
+			c.ret(smt.Ite(nan, smt.F64(math.NaN()), smt.Ite(smt.FCmp("fp.lt", x, y), y, x)))
+		},
+		"math.IsNaN": func(c *stubCtx) { c.ret(smt.FIsNaN(c.args[0].(*smt.Term))) },
+		"math/rand.Float64": func(c *stubCtx) {
+			// documented contract: a pseudo-random number in the half-open interval [0.0,1.0); not a replay input
+			r := c.m.freshVar("rand_f64", smt.SFP(64))
+			c.m.assume(smt.And(smt.FCmp("fp.geq", r, smt.F64(0)), smt.FCmp("fp.lt", r, smt.F64(1))))
+			c.ret(r)
 		},
 		"errors.Is": func(c *stubCtx) {
 			// identity comparison only (wrapped chains built by the fmt.Errorf stub are opaque)
